@@ -67,6 +67,20 @@ class ControlStages(Sub):
         return verdict(run, b)
 
 
+def lost_data_ack_then_foreign_ack(run, t):
+    """The failing transaction is a data-stage IN that retries a packet whose host ACK was lost, and a host ACK
+    for another endpoint went by in between."""
+    if t["ep"] != 0 or t["kind"] != "in" or "data stage" not in t.get("ctx", ""):
+        return False
+    foreign_ack = False
+    for p in reversed(run.txns[:-1]):
+        if p["ep"] == 0:
+            return (p["kind"] == "in" and p["resp"][0] == "data" and not p["ack"] and foreign_ack)
+        if p["ack"]:
+            foreign_ack = True
+    return False
+
+
 def verdict(run, b, extra_labels=()):
     labels = set(extra_labels)
     if run.violation is not None:
@@ -74,7 +88,9 @@ def verdict(run, b, extra_labels=()):
         sig = G.response_signature(v)
         facts = G.pending_request_facts(run, b.prog)
         t = v.get("txn")
-        if v["cls"] == "response" and facts["foreign_ack_while_pending"]:
+        if v["cls"] == "response" and t is not None and lost_data_ack_then_foreign_ack(run, t):
+            sig = "foreign-ack-after-lost-data-ack-advances-descriptor"
+        elif v["cls"] == "response" and facts["foreign_ack_while_pending"]:
             sig = "foreign-ack-completes-pending-request"
         elif v["cls"] == "response" and t is not None and t["ep"] == 0 and t["kind"] != "setup" and facts["abandoned_before"]:
             sig = "stale-request-state-after-abandoned-transfer"
